@@ -8,6 +8,7 @@
   C03.d opt-skip     ResponseIterator::next = next_including_opt followed by the OPT skip, and the skip
                      advances only on the branch where the record type read equals Type::OPT
   C03.e budget       (E4) a trusted reader that limits the pointers it follows allows at least the validator's 16
+  C03.f end of walk  a step function returns None only on the true side of `<header count | edns_count | rrs_left> == 0`
   C03.c layout       (see rules/layout.py) the readers' field tuples equal the RFC table, the validator's and the builder's
 
 Not decided here: that the walk visits exactly the records present for every accepted packet, name
@@ -126,7 +127,53 @@ def run(ctx):
         opt_skip(ctx, facts, cfg)
         layout.check_readers(ctx, facts, cfg, 'C03.c')
         pointer_budget_rule(ctx, facts, cfg)
+        none_rule(ctx, facts, cfg)
     ctx.assume('cursor invariants of accepted packets (offset <= offset_next <= len) are run-time facts and are not decided here')
+
+
+def none_rule(ctx, facts, cfg):
+    """C03.f: a walk ends (the step function yields None) only because no records are left: every block that sets the result to None
+    is entered solely on the true side of a `<count> == 0` test, <count> being the section's header count, edns_count or rrs_left."""
+    rid = 'C03.f'
+    COUNTS = ('dns_sector::DNSSector::qdcount', 'dns_sector::DNSSector::ancount', 'dns_sector::DNSSector::nscount', 'dns_sector::DNSSector::arcount')
+    n = 0
+    for key, f in sorted(facts.fns.items()):
+        if not (key.endswith(' as rr_iterator::DNSIterable>::next') or key.endswith('::next_including_opt') or key.endswith('::maybe_skip_opt_section')):
+            continue
+        defs = F.single_defs(f)
+        preds = {}
+        for bi, b in F.blocks(f):
+            for m in F.succ(b):
+                preds.setdefault(m, []).append(bi)
+        for bi, b in F.blocks(f):
+            for st in b['stmts']:
+                if not (st['k'] == 'assign' and not st['place']['proj'] and st['place']['local'] == 0 and st['rv']['k'] == 'aggregate' and st['rv'].get('variant') == 'None'):
+                    continue
+                n += 1
+                why = []
+                for p in preds.get(bi, []):
+                    t = f['blocks'][p]['term']
+                    if t['k'] != 'switch':
+                        why.append('entered unconditionally from bb%d' % p)
+                        continue
+                    e = F.expr(f, defs, t['discr'])
+                    truth_here = (t['otherwise'] == bi and all(v == 0 for v, _ in t['targets'])) or any(v == 1 and tb == bi for v, tb in t['targets'])
+                    zero = e[0] == 'binop' and ((e[1] == 'Eq' and e[3] == ('const', 0)) or (e[1] == 'Le' and e[3] == ('const', 0)) or (e[1] == 'Lt' and e[3] == ('const', 1)))
+                    if not (zero and truth_here):
+                        why.append('entered on a test that is not `count == 0` (%s)' % str(e)[:60])
+                        continue
+                    rs = F.roots(f, defs, t['discr'])
+                    x = e[2]
+                    src_ok = any((r[0] == 'call' and r[1] in COUNTS) or (r[0] == 'load' and F.last_field(r[1]) in ((PP, 'edns_count'), (RRI, 'rrs_left'))) for r in rs) or \
+                        (x[0] == 'call' and x[1] in COUNTS) or F.is_load_of(x, PP, 'edns_count') or F.is_load_of(x, RRI, 'rrs_left')
+                    if not src_ok:
+                        why.append('the value compared with 0 is not a record count (%s)' % str(x)[:60])
+                ctx.instance(rid, '%s: `None` at bb%d is reached only through `count == 0`' % (key.split('::')[-1] if '>' not in key else key.split(' as ')[0].split('::')[-1] + '::next', bi), ok=not why, site=st.get('at'))
+                for w in why[:1]:
+                    ctx.violation(rid, key, 'none@%s' % (st.get('at') or bi), 'the walk can end (return None) for a reason other than "no records left": %s; records present in the packet would not be visited' % w,
+                                  site=st.get('at'), config=cfg)
+    if n < 7:
+        ctx.violation(rid, '<floor>', 'None exits', 'found %d None exits in the step functions, expected 7' % n, kind='below-floor')
 
 
 def pairing_rule(ctx, facts, cfg, rid):
